@@ -275,6 +275,9 @@ type CrashCase struct {
 	All    bool
 	// Second are second-crash points in permille of the recovery run's write log, tried at every 3rd first point.
 	Second []int
+	// Third are third-crash points in permille of the second recovery's write log, tried at the first usable second
+	// point of each first point that has second points (a chain of three crashes).
+	Third []int `json:",omitempty"`
 	// AnyOutcome: plugin outcomes are NOT a function of the action alone (scripts depend on the invocation / run
 	// number), so the "outcome equals the uninterrupted one" clause does not apply; every other clause does.
 	AnyOutcome bool
@@ -405,6 +408,32 @@ func RunCrashCase(c *CrashCase, which string, res *vprop.Result) {
 					res.Violations[len(res.Violations)-1].Msg += "\n--- log of the first recovery (crashed after its write " + fmt.Sprint(j) + "):\n" + FormatEvents(rr1.Events, 40)
 				}
 				return
+			}
+			if len(seen) != 1 || len(c.Third) == 0 {
+				continue
+			}
+			w2 := DurableWrites(rr2)
+			seen3 := map[int]bool{}
+			for _, p3 := range c.Third {
+				if len(w2) == 0 {
+					break
+				}
+				m := 1 + p3*(len(w2)-1)/1000
+				if m < 1 || m > len(w2) || seen3[m] {
+					continue
+				}
+				seen3[m] = true
+				all3 := append(append([]*WriteRec{}, both...), w2[:m]...)
+				d3 := SnapshotAt(all3)
+				rr3, _, ok := recoverOn(all3)
+				if !ok {
+					continue
+				}
+				vprop.Count("third_crash_points", 1)
+				where3 := fmt.Sprintf("%s, then third crash after write %d of %d of the second recovery (%s %v)", where2, m, len(w2), w2[m-1].Tag, w2[m-1].State.Status)
+				if !judge(d3, rr3, where3) {
+					return
+				}
 			}
 		}
 	}
